@@ -231,3 +231,23 @@ def exc_class(e: BaseException | None) -> str:
 
 def call_later_keep(loop: Any, delay: float, fn: Callable[..., Any], *args: Any) -> Any:
     return loop.call_later(delay, fn, *args)
+
+
+def seed_unseeded_rng(seams: Seams, seed: int) -> None:
+    """gallia's RNG() without seeds (security-access seeds) draws from the OS; in a simulation the
+    freshness comes from the run's PRNG instead, so that a run is a pure function of its plan."""
+    import random as _random
+
+    import gallia.services.uds.server as _srv
+
+    source = _random.Random(seed)
+    orig = _srv.RNG.set_seeds
+
+    def set_seeds(self: Any, *args: Any) -> None:
+        if len(args) == 0:
+            self.seeds = []
+            self.seed(source.getrandbits(64))
+        else:
+            orig(self, *args)
+
+    seams.set(_srv.RNG, "set_seeds", set_seeds)
